@@ -22,6 +22,9 @@ func c11(c *Ctx) {
 	c11R1(c)
 	c11R2(c)
 	c11R3(c)
+	rulePodRequiresRecord(c, "C11.R4")
+	ruleFixedNamePod(c, "C18.R6")
+	ruleSandboxExited(c, "C10.R7")
 }
 
 func c11R1(c *Ctx) {
